@@ -1,3 +1,7 @@
 import IpamVerif.Addr
 import IpamVerif.AddrLemmas
+import IpamVerif.Pool
+import IpamVerif.PoolLemmas
 import IpamVerif.Props.C13
+import IpamVerif.Props.C14
+import IpamVerif.Props.C19
